@@ -16,6 +16,7 @@ import itertools
 import json
 import random
 import time
+from concurrent.futures import ThreadPoolExecutor
 
 from harness import oscgen as g
 from harness import oscv
@@ -328,12 +329,17 @@ def brief(c, t, at):
 
 def judge(ctx, cases, traces):
     res = {}
-    for kind, module in SPEC.items():
+
+    def one(kind):
+        module = SPEC[kind]
         sub = [traces[c['id']] for c in cases if c['kind'] == kind]
         t0 = time.time()
         verdicts, _ = oscv.validate(ctx, module, module + '.cfg', sub, tag=kind)
         ctx.cov.setdefault('phase_wall_s', {})['validate_' + kind] = round(time.time() - t0, 1)
-        res.update(verdicts)
+        return verdicts
+    with ThreadPoolExecutor(max_workers=3) as ex:      # the three trace specs side by side
+        for verdicts in ex.map(one, list(SPEC)):
+            res.update(verdicts)
     for c in cases:
         v = res[c['id']]
         t = traces[c['id']]
@@ -375,6 +381,8 @@ def run(ctx):
     r = ctx.model_check('DispatchModel', 'DispatchModel%s.cfg' % sfx, timeout=1500,
                         require_cover=('Create', 'Enable', 'Disable', 'Free', 'OneShot', 'SetFunc', 'SetPerm', 'CmdPeriod', 'Recv'))
     ctx.expect_ok(r, 'DispatchModel (FreedNeverFires, DisabledNeverFires, OneShotOnce, OrderIsRegistrationOrder, ...)')
+    r = ctx.model_check('DispatchImpl', 'DispatchImpl.cfg', require_cover=('Begin', 'Call', 'End'), timeout=300)
+    ctx.expect_ok(r, 'DispatchImpl (delivery loop over a copy refines Fire)')
     r = ctx.model_check('OscFaultModel', 'OscFaultModel%s.cfg' % sfx, require_cover=('Trunc', 'Word', 'ByteF', 'Extend'), timeout=1500)
     ctx.expect_ok(r, 'OscFaultModel (decoder total on damaged datagrams)')
     r = ctx.model_check('RegistriesModel', 'RegistriesModel.cfg', require_cover=('Add', 'Remove', 'RemoveAll', 'Run'), timeout=600)
@@ -389,7 +397,7 @@ def run(ctx):
     ctx.cov['fault_datagrams'] = dict(total=len(faults), bad=sum(1 for _, k in faults if k == 'bad'))
     fb = [b for b, _ in faults]
     hs = [dict(kind='dispatch', ev=h, src='directed') for h in directed_histories()]
-    hs += [dict(kind='dispatch', ev=h, src='model') for h in sim_histories(ctx, 1500 if thorough else 200)]
+    hs += [dict(kind='dispatch', ev=h, src='model') for h in sim_histories(ctx, 1500 if thorough else 150)]
     ctx.cov['spec_behaviours_replayed'] = sum(1 for h in hs if h['src'] == 'model')
     # every fault datagram once, each followed by a normal message
     plain = dict(src=dict(h=0, p=0), rport=0, tmpl=[], os=False)
@@ -399,8 +407,12 @@ def run(ctx):
             ev.append(dict(op='recv', dg=list(b), src=SENDERS[0], via=1))
             ev.append(dict(op='recv', v=g.M('/a', [g.I(1)]), src=SENDERS[0], via=1))
         hs.append(dict(kind='dispatch', ev=ev, src='faults'))
-    hs += [dict(kind='dispatch', ev=random_history(rnd, fb), src='random') for _ in range(4000 if thorough else 400)]
-    regs = reg_directed() + [reg_history(rnd) for _ in range(3000 if thorough else 300)]
+    hs += [dict(kind='dispatch', ev=random_history(rnd, fb), src='random') for _ in range(4000 if thorough else 300)]
+    # a share of the histories goes through real UDP loopback sockets and the library's receive thread
+    for k, h in enumerate(hs):
+        if h['src'] == 'directed' or (h['src'] in ('random', 'model') and k % 5 == 0):
+            hs.append(dict(kind='dispatch', ev=h['ev'], src=h['src'] + '/udp', udp=True))
+    regs = reg_directed() + [reg_history(rnd) for _ in range(3000 if thorough else 200)]
     cases += hs + regs
     phases['generate'] = round(time.time() - t0, 1)
     t0 = time.time()
@@ -413,7 +425,8 @@ def run(ctx):
     hangs = sum(1 for c in hs for e in traces[c['id']]['ev'] if e['op'] == 'recv' and e['out'] != 'ok')
     ctx.cov['recv_events'] = sum(1 for c in hs for e in traces[c['id']]['ev'] if e['op'] == 'recv')
     ctx.cov['recv_not_ok'] = hangs
-    ctx.cov['cases_by_kind'] = dict(match=nmatch, dispatch=len(hs), registries=len(regs))
+    ctx.cov['cases_by_kind'] = dict(match=nmatch, dispatch=len(hs), dispatch_via_udp_loopback=sum(1 for h in hs if h.get('udp')),
+                                    registries=len(regs))
     h = hs[len(hs) // 2]
     ctx.sample(dict(history=[{k: w for k, w in e.items() if k != 'dg'} for e in traces[h['id']]['ev']][:8]))
     ctx.sample(dict(registries=traces[regs[-1]['id']]['ev'][:6]))
@@ -434,7 +447,8 @@ def run(ctx):
         'nested bundle time below the enclosing one, pattern forms OSC 1.0 leaves open) only must not raise or hang',
         'RT threads are real: delivery waits for a marker scheduled behind the dispatch on SystemClock (harness/oscrt.deliver); '
         'a hang is detected with a 2 s real-time alarm',
-        'UDP/TCP socket behaviour is not exercised: datagrams enter at OscInterface._handle_request',
+        'most datagrams enter at OscInterface._handle_request; about a fifth of the histories are sent through real UDP loopback '
+        'sockets (sender address filters then use the sockets\' real ports); TCP is not exercised',
     ]
 
 
